@@ -1,9 +1,11 @@
 #!/bin/sh
-# usage: tools_try.sh <worktree> <diff> <prop> [extra check args]
-# brings the scratch worktree to /repo's HEAD, applies the diff there, runs the check with --repo, reverts.
-WT=$1; DIFF=$2; PROP=$3; shift 3
+# usage: tools_try.sh <seeded-id e.g. C06-2 | path/to.diff> <prop> [extra check args]
+# brings the scratch worktree /tmp/wt/try to /repo's HEAD, applies the diff there, runs the check with --repo, reverts.
+WT=/tmp/wt/try; D=$1; PROP=$2; shift 2
+[ -f "$D" ] || D=/verif/seeded/$D/patch.diff
+[ -d $WT ] || git -C /repo worktree add -q --detach $WT HEAD
 git -C $WT checkout -q -- . && git -C $WT checkout -q --detach $(git -C /repo rev-parse HEAD) || exit 9
-git -C $WT apply $DIFF || { echo "diff does not apply"; exit 9; }
+git -C $WT apply -C1 $D || { echo "diff does not apply"; exit 9; }
 /verif/check $PROP --repo $WT "$@"
 echo "exit=$?"
 git -C $WT checkout -q -- .
